@@ -213,3 +213,177 @@ def has_sharing(term):
         return any([w(c) for c in t[1:] if isinstance(c, tuple)])
 
     return w(term)
+
+
+# ---------------------------------------------------------------------------------------------------------------
+# targeted family: nested binders (depth 2-3) whose innermost body shares a node over variables bound at DIFFERENT depths
+
+HOLE = ('hole',)
+_A = ('mka', ('lit', 0), ('lit', 1))        # completes as nodes 0, 1, 2
+_RA = ('ref', 2)
+
+# (name, root type, hole type, skeleton, {binder id: depth rank})
+SKELETONS = [
+    ('map-in-map', 'a', 'i', ('map', 0, _A, ('len', ('map', 1, _RA, HOLE))), {0: 1, 1: 2}),
+    ('map-in-map-dependent-array', 'a', 'i', ('map', 0, _A, ('len', ('map', 1, ('mka', ('var', 0)), HOLE))), {0: 1, 1: 2}),
+    ('fold-in-map', 'a', 'i', ('map', 0, _A, ('fold', 1, 2, _RA, ('lit', 2), HOLE)), {0: 1, 1: 2, 2: 2}),
+    ('map-in-fold', 'i', 'i', ('fold', 0, 1, _A, ('lit', 2), ('len', ('map', 2, _RA, HOLE))), {0: 1, 1: 1, 2: 2}),
+    ('let-around-map', 'a', 'i', ('let', 'i', 'a', 0, ('add', ('lit', 0), ('lit', 1)),
+                                  ('map', 1, ('mka', ('lit', 2), ('var', 0)), HOLE)), {0: 1, 1: 2}),
+    ('let-in-map', 'a', 'i', ('map', 0, _A, ('let', 'i', 'i', 1, ('add', ('var', 0), ('lit', 2)), HOLE)), {0: 1, 1: 2}),
+    ('filter-in-map', 'a', 'b', ('map', 0, _A, ('len', ('filter', 1, _RA, HOLE))), {0: 1, 1: 2}),
+    ('map-in-filter', 'a', 'i', ('filter', 0, _A, ('lt', ('len', ('map', 1, _RA, HOLE)), ('var', 0))), {0: 1, 1: 2}),
+    ('fold-in-fold', 'i', 'i', ('fold', 0, 1, _A, ('lit', 2), ('fold', 2, 3, _RA, ('var', 0), HOLE)), {0: 1, 1: 1, 2: 2, 3: 2}),
+    ('let-in-let', 'i', 'i', ('let', 'i', 'i', 0, ('lit', 0), ('let', 'i', 'i', 1, ('add', ('var', 0), ('lit', 1)), HOLE)),
+     {0: 1, 1: 2}),
+    ('let-around-fold', 'i', 'i', ('let', 'i', 'i', 0, ('add', ('lit', 0), ('lit', 1)),
+                                   ('fold', 1, 2, ('mka', ('lit', 2), ('var', 0)), ('var', 0), HOLE)), {0: 1, 1: 2, 2: 2}),
+    ('map-under-if-in-map', 'a', 'i', ('map', 0, _A, ('if', 'i', ('lt', ('var', 0), ('lit', 2)),
+                                                       ('len', ('map', 1, _RA, HOLE)), ('var', 0))), {0: 1, 1: 2}),
+    ('map-in-map-in-map', 'a', 'i', ('map', 0, _A, ('len', ('map', 1, _RA, ('len', ('map', 2, _RA, HOLE))))), {0: 1, 1: 2, 2: 3}),
+    ('let-in-fold-in-map', 'a', 'i', ('map', 0, _A, ('fold', 1, 2, _RA, ('lit', 2),
+                                                      ('let', 'i', 'i', 3, ('add', ('var', 2), ('lit', 3)), HOLE))),
+     {0: 1, 1: 2, 2: 2, 3: 3}),
+]
+
+NEST_OPTS = dict(DEFAULT_OPTS, arrays=False, share_lits=False, let_body_types=(), let_value_types=(), if_types=('i',))
+
+
+def _term_type(t, done):
+    k = t[0]
+    if k == 'ref':
+        return done[t[1]][0]
+    if k in ('lit', 'add', 'mul', 'len', 'fold', 'getf', 'var'):
+        return 'i'
+    if k == 'lt':
+        return 'b'
+    if k in ('mka', 'map', 'filter'):
+        return 'a'
+    if k == 'mks':
+        return 's'
+    if k == 'if':
+        return t[1]
+    if k == 'let':
+        return t[2]
+    raise AssertionError(t)
+
+
+def _prefix_state(skel):
+    """walk the skeleton in completion order up to the hole: -> (state for gen, scope at the hole)"""
+    done = []
+    varnodes = []
+    nlit = [0]
+    nbind = [0]
+    found = []
+
+    def binders(t):
+        k = t[0]
+        if k in ('map', 'filter'):
+            return {3: (t[1],)}
+        if k == 'fold':
+            return {5: (t[1], t[2])}
+        if k == 'let':
+            return {5: (t[3],)}
+        return {}
+
+    def w(t, scope):
+        """returns free set; raises StopIteration-like by setting found"""
+        if found:
+            return frozenset()
+        k = t[0]
+        if t == HOLE:
+            found.append(scope)
+            return frozenset()
+        if k == 'ref':
+            return done[t[1]][1]
+        if k == 'var':
+            if t[1] not in varnodes:
+                varnodes.append(t[1])
+            return frozenset((t[1],))
+        if k == 'lit':
+            nlit[0] += 1
+            done.append(('i', frozenset(), True))
+            return frozenset()
+        b = binders(t)
+        free = frozenset()
+        for i, c in enumerate(t):
+            if not isinstance(c, tuple):
+                continue
+            bs = b.get(i, ())
+            for x in bs:
+                nbind[0] = max(nbind[0], x + 1)
+            tv = t[1] if k == 'let' else 'i'
+            f = w(c, scope + tuple((x, tv) for x in bs))
+            if found:
+                return frozenset()
+            free |= f - set(bs)
+        done.append((_term_type(t, done), free, False))
+        return free
+
+    w(skel, ())
+    nb = 0
+
+    def maxbind(t):
+        nonlocal nb
+        for i, c in enumerate(t):
+            if isinstance(c, tuple):
+                maxbind(c)
+        if t[0] in ('map', 'filter'):
+            nb = max(nb, t[1] + 1)
+        elif t[0] == 'fold':
+            nb = max(nb, t[2] + 1)
+        elif t[0] == 'let':
+            nb = max(nb, t[3] + 1)
+
+    maxbind(skel)
+    # variables count as fresh nodes inside the hole whether or not the skeleton already used them (uniform sizes)
+    # ... and the hole may share only its own nodes, never the skeleton's
+    return _St(tuple(('-', f, l) for _, f, l in done), nlit[0], nb, ()), found[0]
+
+
+def _subst(t, hole):
+    if t == HOLE:
+        return hole
+    return tuple(_subst(c, hole) if isinstance(c, tuple) else c for c in t)
+
+
+def _renumber_lits(t):
+    n = [0]
+
+    def w(x):
+        if x[0] == 'lit':
+            n[0] += 1
+            return ('lit', n[0] - 1)
+        return tuple(w(c) if isinstance(c, tuple) else c for c in x)
+
+    return w(t)
+
+
+def _refs(t, out):
+    if t[0] == 'ref':
+        out.add(t[1])
+        return
+    for c in t[1:]:
+        if isinstance(c, tuple):
+            _refs(c, out)
+
+
+def nested_programs(size, skeleton_index=None, ops=('add', 'mul')):
+    """every program = skeleton[hole := h] where h has exactly `size` fresh nodes (no further binders) and shares (back-refers
+    to) at least one of its own nodes whose variables are bound at two or more different depths.
+    Yields (skeleton name, root type, term, shared node completion index)."""
+    for si, (name, rt, ht, skel, ranks) in enumerate(SKELETONS):
+        if skeleton_index is not None and si != skeleton_index:
+            continue
+        st0, scope = _prefix_state(skel)
+        c0 = len(st0.done)
+        opts = dict(NEST_OPTS, ops=ops)
+        for h, cost, free, st1 in gen(ht, size, scope, st0, opts):
+            if cost != size or h[0] in ('ref', 'var'):
+                continue
+            used = set()
+            _refs(h, used)
+            shared = [k for k in sorted(used) if k >= c0 and len({ranks[b] for b in st1.done[k][1]}) >= 2]
+            if not shared:
+                continue
+            yield name, rt, _subst(skel, h), shared[0]
